@@ -33,9 +33,22 @@ std.math.MIN_INT; std.io.print; std.string.trim(" a"); std.convert.to_int(1); st
 
 pub fn warm() {
     WARM.call_once(|| {
+        // best effort and not a verdict about any property: the pieces are warmed independently,
+        // a piece the implementation does not accept is left to the checks to judge
         let interp = Interpreter::with_stdlib();
-        let code = Code::parse(&interp, WARM_PROGRAM).expect("warm program must parse");
-        code.exec().expect("warm program must run");
+        let whole = Code::parse(&interp, WARM_PROGRAM).ok().and_then(|code| code.exec().ok());
+        if whole.is_none() {
+            eprintln!("note: the warm-up program is not accepted as a whole; warming its statements one by one");
+            let mut interp = Interpreter::with_stdlib();
+            for piece in ["idf := (x: int) -> int { return x }", "tr := (x: int) -> bool { return true }", "a := (([1, 2]~ @ idf) ? tr) ? int", "a $]",
+                "[1]~ $+", "[1.5]~ $+", "[\"a\"]~ $+", "[1]~ $*", "[1.5]~ $*", "[true]~ $&&", "[true]~ $||", "[1]~ $&", "[1]~ $|", "[1]~ \\ tr",
+                "[1]~ $ 0 (acc: int, cur: int) -> int { return acc + cur }", "for e in [1]~ { e }", "std.math.MIN_INT", "std.io.print",
+                "std.string.trim(\" a\")", "std.convert.to_int(1)", "std.operators.all", "std.len([1])"] {
+                if let Ok(code) = Code::parse(&interp, piece) {
+                    let _ = code.exec_unscoped(&mut interp);
+                }
+            }
+        }
         let _ = "()->(bool, int)".parse::<simplesl::variable::Type>();
         let _ = "[1, 2]".parse::<simplesl::variable::Variable>();
     });
